@@ -142,9 +142,11 @@ def f64_ok(bits):
 class Synth:
     """Random module builder.  `ops` = [(opcode, name, [kinds])] from isa_probe --dump."""
 
-    def __init__(self, ops, rng):
+    def __init__(self, ops, rng, allow=()):
+        """allow: keys of known defects that are NOT open any more - their triggers become part of the sweep."""
         self.ops = ops
         self.rng = rng
+        self.allow = set(allow)
         self.jumpers = [o for o in ops if "I32" in o[2]]
         self.byname = {o[1]: o for o in ops}
 
@@ -154,6 +156,8 @@ class Synth:
         n = r.choice([0, 1, 2, 3, 5, 8, 13, 21, maxlen]) if r.random() < 0.8 else r.randrange(maxlen + 1)
         if cls == "plain":
             alpha = [ord(c) for c in "abcXYZ019 _-+*/=<>()[]{}.,:!?'@$%^&|~`"]
+            if K_COMMENT in self.allow:
+                alpha += [ord(";"), ord("#")] * 3
         elif cls == "escapes":
             alpha = [ord('"'), ord("\\"), ord("\n"), ord("\t"), ord("\r"), ord("n"), ord("t"), ord("0"), ord("a"), ord(" ")]
         elif cls == "high":
@@ -161,7 +165,9 @@ class Synth:
         elif cls == "ctrl":
             alpha = [c for c in range(1, 0x20)] + [0x7F, ord("x")]
         else:  # anything except the known triggers ; # NUL
-            alpha = [c for c in range(1, 256) if c not in (ord(";"), ord("#"))]
+            alpha = [c for c in range(1, 256) if c not in (ord(";"), ord("#")) or K_COMMENT in self.allow]
+            if K_NUL in self.allow:
+                alpha += [0] * 4
         return bytes(r.choice(alpha) for _ in range(n))
 
     def ident(self, maxlen=24):
@@ -184,7 +190,9 @@ class Synth:
         if kind == "F64":
             while True:
                 b = r.choice(F64_B) if r.random() < 0.4 else r.getrandbits(64)
-                if f64_ok(b):
+                if K_DENORM in self.allow and r.random() < 0.1:
+                    b = (b & 0x800FFFFFFFFFFFFF) | 1
+                if f64_ok(b) or (K_DENORM in self.allow and (b >> 52) & 0x7FF == 0):
                     return b
         raise ValueError(kind)
 
@@ -229,7 +237,7 @@ class Synth:
         bounds = pos + [n]
         # target pool (bounded: the disassembler names at most 512 targets per function, the assembler's
         # label table holds 1024 per module - staying below both is the zone of the sweep)
-        pool_n = min(label_budget, 500, len(bounds))
+        pool_n = min(label_budget, 700 if K_NUMLAB in self.allow and r.random() < 0.3 else 500, len(bounds))
         pool = r.sample(bounds, pool_n) if pool_n > 0 else []
         if pool and r.random() < 0.5 and n not in pool:
             pool[0] = n                                     # function end
@@ -245,7 +253,8 @@ class Synth:
             for s, k in enumerate(kinds):
                 if k != "I32":
                     continue
-                numeric = (mode == "numeric") or (mode == "numeric-then-labels" and seen < switch) or not pool
+                numeric = (mode == "numeric") or (mode == "numeric-then-labels" and seen < switch) or not pool \
+                    or (mode == "mixed" and r.random() < 0.3)
                 if mode == "labels" and not numeric and r.random() < 0.1 and pos[i] in pool:
                     t = pos[i]                              # jump to self
                 elif not numeric:
@@ -314,7 +323,7 @@ class Synth:
         name_idx = [i for i, (k, _) in enumerate(pool) if k == "n"]
         if r.random() < 0.5:
             r.shuffle(name_idx)
-        safe_str = [i for i, s in enumerate(strings) if b"\n" not in s]
+        safe_str = [i for i, s in enumerate(strings) if b"\n" not in s or K_PNL in self.allow]
         functions = []
         code = bytearray()
         budget = 1000
@@ -329,12 +338,14 @@ class Synth:
                 ninstr = r.choice([300, 800, 1500])
             else:
                 ninstr = r.choice([0, 1, 2, 3, 8, 20, 60, 150])
-            mode = r.choices(["labels", "numeric", "numeric-then-labels", "none"], [60, 12, 18, 10])[0]
+            mode = r.choices(["labels", "numeric", "numeric-then-labels", "none", "mixed"],
+                             [60, 12, 18, 10, 25 if K_NUMLAB in self.allow else 0])[0]
             dens = 0.25
             if profile == "labels":
                 mode, dens = "labels", 0.6
             body, used = self.function(ninstr, mode, budget, safe_str, len(strings), dens)
-            budget -= used
+            if K_LABELS not in self.allow:
+                budget -= used
             functions.append(dict(name_idx=name_idx[fi], arity=r.choice([0, 1, 2, 255, 65535, r.randrange(65536)]),
                                   off=len(code), len=len(body), locals=r.choice([0, 1, 7, 256, 65535, r.randrange(65536)]),
                                   upv=r.choice([0, 0, 1, 65535, r.randrange(65536)])))
@@ -853,8 +864,11 @@ def run(ctx):
             mods.append((sc.file("shape/%s.nvm" % name, data), "shape", name, None, None))
         nsyn = ctx.n(150, 2600)
         prof_hist = {}
+        allow = [k for k in (K_COMMENT, K_NUL, K_PNL, K_DENORM, K_NUMLAB, K_LABELS) if k not in ctx.open]
+        if allow:
+            ctx.note("sweep widened by the triggers of findings that are no longer open: %s" % ", ".join(a.split("|")[-1] for a in allow))
         for i in range(nsyn):
-            data, prof = Synth(ops, ctx.rng("syn", i)).module()
+            data, prof = Synth(ops, ctx.rng("syn", i), allow).module()
             prof_hist[prof] = prof_hist.get(prof, 0) + 1
             mods.append((sc.file("syn/s%05d.nvm" % i, data), "synthetic", "syn%05d(%s)" % (i, prof), None, None))
         # (d) witnesses of the known defects
@@ -902,13 +916,14 @@ def run(ctx):
                 st = rec["st"]
                 if st.get("code", 0) > 0 and st.get("fns", 0) > 0:
                     nontrivial.add(h)
-                for k in ("jf", "jb", "je", "js", "jo", "zero", "sc", "sn", "sr", "st", "sq", "sb", "sh", "sz", "se", "nal", "pnl", "fden"):
-                    if st.get(k):
-                        shapes[k] = shapes.get(k, 0) + 1
-                for k in ("maxlab", "labdef", "maxpatch", "maxstr", "fns", "code"):
-                    shapes["max_" + k] = max(shapes.get("max_" + k, 0), st.get(k, 0))
-                if st.get("inorder") == 0:
-                    shapes["not_in_table_order"] = shapes.get("not_in_table_order", 0) + 1
+                if origin in ("repo", "generated", "synthetic", "shape"):       # what the sweep itself exercised (witnesses excluded)
+                    for k in ("jf", "jb", "je", "js", "jo", "zero", "sc", "sn", "sr", "st", "sq", "sb", "sh", "sz", "se", "nal", "pnl", "fden"):
+                        if st.get(k):
+                            shapes[k] = shapes.get(k, 0) + 1
+                    for k in ("maxlab", "labdef", "maxpatch", "maxstr", "fns", "code"):
+                        shapes["max_" + k] = max(shapes.get("max_" + k, 0), st.get(k, 0))
+                    if st.get("inorder") == 0:
+                        shapes["not_in_table_order"] = shapes.get("not_in_table_order", 0) + 1
                 if oc == "same":
                     hist[origin + ":same"] = hist.get(origin + ":same", 0) + 1
                     if origin == "witness":
@@ -928,7 +943,7 @@ def run(ctx):
                 t = sh([asan.probe("rt_probe"), "--text", path], cpu=60, san=True)
                 if t.rc == 0:
                     files["disassembly.txt"] = t.out[:2 << 20]
-                what = "text round trip of %s module %s is not the identity: %s\n%s" % (origin, label, oc, rec["detail"][:1500])
+                what = "text round trip of %s module %s is not the identity: %s\n%s" % (origin, label, oc, rec["detail"][:400])
                 is_new = ctx.violation(key, what, files)
                 if len(samples) < 10 and not is_new and not any(s.get("key") == key for s in samples):
                     samples.append({"module": label, "origin": origin, "outcome": oc, "key": key, "detail": rec["detail"][:200]})
@@ -980,7 +995,7 @@ def run(ctx):
             "probes link the repository's own isa.o / assembler.o / disassembler.o / nvm_format.o of the asan flavor",
             "the expected instruction bytes are computed inside isa_probe from hard-coded operand sizes; only the opcode -> operand-kind table is read from isa_get_info",
             "synthetic modules are written by this check's own .nvm writer and must pass nvm_deserialize; they are decodable but need not be executable",
-            "the random sweep avoids the triggers of the open findings (string with ; # NUL or >= 4096 bytes, newline-string named by PUSH_STR, "
+            "the random sweep avoids the triggers of the findings listed as open (an entry that is removed from 'open' widens the sweep automatically) (string with ; # NUL or >= 4096 bytes, newline-string named by PUSH_STR, "
             "denormal / NaN-payload f64, > 512 targets per function or a numeric i32 operand behind a label, > 1024 labels per module, > 2048 label "
             "references per function, functions out of table order); compiler-produced modules are taken as they come",
         ])
